@@ -42,6 +42,18 @@ Definition tucker_zero (core : tensor Z) (fs : list zmat) (fixed : list nat) : r
               Ok (ZmmdT c1 (map snd fixedp) (map fst fixedp), fs')
   end.
 
+(* what byte comparison of successive budgets can establish: a factor that changed after sweep k WAS assigned in
+   sweep k (so every observed change must be predicted), and in the first sweep, which starts from a generic
+   non-stationary point, every assigned factor changes.  (Later sweeps may reproduce the same bits: with a single
+   free mode the least-squares update is idempotent.) *)
+Fixpoint trace_ok (model observed : list (list nat)) : bool :=
+  match model, observed with
+  | [], [] => true
+  | hm :: model', ho :: observed' =>
+      Bool.eqb (memb 0 hm) (memb 0 ho) && forallb (fun it => memb it hm) ho && trace_ok model' observed'
+  | _, _ => false
+  end.
+
 Inductive case :=
 (* initialiser: rank, weights (None = no weights), factors | implementation: factors returned by the initialiser,
    dense tensor of the zero-budget result of the named algorithm *)
@@ -68,7 +80,7 @@ Definition agree (c : case) : bool :=
       && zt_eqb (Zcp_dense R (match w with None => Zones R | Some v => v end) fs) dense0
   | CDense _ R w fs dense => zt_eqb (Zcp_dense R w fs) dense
   | CTrace _ a n fixed budget tol stops observed =>
-      res_eqb nat_lists_eqb (trace_run a n fixed budget tol stops) observed
+      res_eqb trace_ok (trace_run a n fixed budget tol stops) observed
   | CTuckerLists _ n fixed observed =>
       res_eqb nat_list_eqb
         (tucker_fixed_lists fixed (seq 0 n) (fun modes free => seq n (length free))) observed
